@@ -40,6 +40,7 @@ class Probe(Application):
 
     def evaluate(self):
         self.evals += 1
+        self.state_at_evaluate = self._state
         if self.eval_mode == "error":
             raise EvalError()
         if self.eval_mode == "state":
@@ -52,6 +53,17 @@ class Probe(Application):
 def replay_application(rec, m):
     ob = rec["obligation"]
     s0 = STATE.get(m.get("state0"), AppState.RUNNING)
+    if "hook_requires[evaluate" in ob:
+        app = Probe()
+        app._state = AppState.RUNNING
+        app._start_time = 0.0
+        try:
+            app.join()
+            out = "returned"
+        except Exception as e:
+            out = type(e).__name__
+        at = getattr(app, "state_at_evaluate", None)
+        return at != AppState.FINISHED, f"join() of a running, then finished application: {out}; evaluate() ran in state {at}"
     if "Application.join" in ob:
         app = Probe(eval_mode="error" if "EvalError" in ob else "ok")
         app._state = s0
@@ -88,6 +100,12 @@ class LProbe(LocalApp):
         self.cleanups += 1
         super().clean_up()
 
+    def evaluate(self):
+        # like a concrete wrapper: reads the output of the finished program
+        self.state_at_evaluate = self._state
+        super().evaluate()
+        self.seen_stdout = self.get_stdout()
+
 
 def replay_localapp(rec, m):
     ob = rec["obligation"]
@@ -105,6 +123,17 @@ def replay_localapp(rec, m):
                 out = type(e).__name__
             now = os.getcwd()
             return now != cwd0, f"run() with a missing binary: {out}; cwd before={cwd0} after={now}"
+        if "hook_requires[evaluate" in ob:
+            app = LProbe("/bin/true")
+            app.start()
+            try:
+                app.join()
+                out = "returned"
+            except Exception as e:
+                out = type(e).__name__
+            at = getattr(app, "state_at_evaluate", None)
+            return at != AppState.FINISHED or out != "returned", (f"join() on /bin/true with an evaluate() that reads the output: {out}; "
+                                                                   f"evaluate() ran in state {at}")
         if "call_was_allowed" in ob and m.get("state0") in STATE:
             # drive a real LocalApp into the state of the counter-model, then call join()
             s0 = STATE[m["state0"]]
